@@ -48,11 +48,12 @@ P("C19", [("K13", None), ("K13O", None), ("V15", None)],
   "Assumed: the forest handed to set_priorities is a DAG with edges from less to more special impls (the disjoint/specializes solver queries are not verified); petgraph and indexmap as compiled by Kani.",
   "contract-based verification with Kani: harness contracts + contract stub (kani::stub) for the callee, graphs enumerated concretely")
 
-P("C05", [("V10", None), ("V3", None), ("K11", r"^k11_stack")],
+P("C05", [("V10", None), ("V3", None), ("V18", None), ("K11", r"^k11_stack")],
   "model_checking",
   "Partial (function-level links): Verus proves on the verbatim text that exactly the goals `T: AutoTrait`, `T: #[coinductive] Trait`, `WellFormed(T: Trait)` and universal "
   "quantifications of those are treated coinductively (every other goal kind is inductive), that coinductive goals start the fixed-point iteration at the top "
-  "(Unique, trivially true, over the goal's own binders) and inductive ones at NoSolution, and that iteration stops only when the answer repeats or is ambiguous (all Verus, unbounded); "
+  "(Unique, trivially true, over the goal's own binders) and inductive ones at NoSolution, that iteration stops only when the answer repeats or is ambiguous, and that solve_goal, on finding a goal already in the search graph, returns that node's answer and ALWAYS lowers the "
+  "caller's minimums to the node's links (so an ancestor that relied on a provisional answer is never cached as if self-contained) and rejects mixed cycles (all Verus, unbounded); "
   "Kani shows the cycle check rejects a cycle exactly when it mixes inductive and coinductive stack entries (BOUNDED: <= 4/6 entries).",
   "Not reached: push_auto_trait_impls / constituent types (iterator+closure code), delayed subgoals in the SLG engine, cache rollback. Assumed: finite goals, trait flags abstract.",
   "contract-based deductive verification: Verus on mechanically extracted function text")
